@@ -179,3 +179,37 @@ def _replay_update(model, contract):
 
 for _k in ("optimization:Optimization.update_instructions", "optimization:Optimization.get_hard_constraints"):
     CONTRACTS[_k]["replay_hook"] = _replay_update
+
+
+# ---- Optimization.get_adjustment / get_baselines
+for _name, _found in (("adj1", True), ("nope", False)):
+    CONTRACTS["optimization:Optimization.get_adjustment#%s" % ("present" if _found else "absent")] = dict(
+        schema=schema, make_env=_env_opt, ghost_params={"name": "const:%r" % _name}, call_stubs={"sc.suggest": (lambda it, *a, **k: None)},
+        raises=({} if _found else {"NotFoundError": "True"}), raises_props=["C14"],
+        ensures=([("C14.the_adjustment_of_that_name", "result is ADJ[1]")] if _found else []), defined_props=["C14"])
+
+
+def _ghost_loads_model(it, blob):
+    from pyvc.interp import PyObjV
+    from pyvc import source
+
+    m = PyObjV("Model", source.load("model"), {"PROCESSED": False})
+    it.live_env["LOG"].append(("loads", blob, m))
+    return m
+
+
+def _ghost_process(it):
+    it.stub_receiver.fields["PROCESSED"] = True
+
+
+def _ghost_baseline(it, model):
+    it.live_env["LOG"].append(("baseline", it.stub_receiver, model, model.fields["PROCESSED"]))
+    return ("baseline of", it.stub_receiver.fields["IDX"])
+
+
+CONTRACTS["optimization:Optimization.get_baselines"] = dict(
+    schema=schema, make_env=_env_opt, ghost_params={"pickled_model": "const:'pickled model'"},
+    call_stubs={"pickle.loads": _ghost_loads_model, "model.process": _ghost_process, "m.get_baseline": _ghost_baseline},
+    ensures=[("C15.baselines_come_from_a_simulated_copy_of_the_model_one_per_measurable_in_order",
+              "result == [('baseline of', 0), ('baseline of', 1)] and LOG[0][0] == 'loads' and LOG[1] == ('baseline', MEAS[0], LOG[0][2], True) and LOG[2] == ('baseline', MEAS[1], LOG[0][2], True)")],
+    defined_props=["C15"])
